@@ -235,13 +235,16 @@ func (s *Set[T]) Equal(other *Set[T]) bool {
 		return iter.Close() == nil && otherIter.Close() == nil
 	}
 
-	for iter.Next(ctx) {
-		if !other.Check(iter.Value()) {
+	// range over the map directly: the map iterator runs in its own
+	// goroutine, and returning early would leave it advancing over
+	// the map while the caller goes on to modify the set.
+	for item := range s.hash {
+		if !other.Check(item) {
 			return false
 		}
 	}
 
-	return iter.Close() == nil
+	return true
 }
 
 // MarshalJSON generates a JSON array of the items in the set.
